@@ -5,6 +5,7 @@ import Wayfind.Proofs.ParseErrors
 import Wayfind.Proofs.CheckedParser3
 import Wayfind.Proofs.SearchC3
 import Wayfind.Proofs.ParserC2
+import Wayfind.Proofs.IndexGuards
 
 /-! # C07 — no input makes the router panic
 The model is written with total list operations (`take`, `drop`, `getElem?`, truncated subtraction), so totality of
@@ -39,6 +40,13 @@ no check fires, for every path and every constraint environment, and the result 
 — `candsInline` / `candsSegment` — that the model writes down directly; the registry lookup cannot miss because every
 constraint name stored in the tree belongs to a live template, whose names were registered when it was inserted,
 `live_consOK`).
+(7) *The remaining index sites whose safety is not local* (`Proofs/IndexGuards.lean`): `insert_static`'s
+`.find(|child| child.state.prefix[0] == prefix[0])`, `find_static`'s `prefix[0]`, and `Display`'s `count -= 1`. `insertIdx` /
+`findIdx` / `linesIdx` collect, along the recursion path of the model (which follows the code's), the condition under which
+each evaluation is in range; `C07_insert_find_index_in_range`: they hold on every reachable router for every expansion of
+every parsed template (labels are non-empty by `Shp`, the parser's literal parts are non-empty and a remainder
+`prefix[common..]` is only passed on when it is non-empty); `C07_display_count_in_range`: on every tree. All other index and
+slice expressions of insert/find/delete are guarded by a length test or come from `position` in the adjacent lines.
 Status: **partial** — stack depth (recursion proportional to group nesting and tree depth), allocation failure, and
 `usize`/`i32` wrap-around (needs inputs ≥ 2^31 bytes) are outside any model; the slices of insert/find/delete (`prefix[0]`, guarded by the non-empty-label
 invariant of (3)) are not transcribed with checks; they, and the error renderer, are tied by running every operation of
@@ -152,3 +160,17 @@ example : isPanic (Node.searchC ⟨envT, fun _ => false⟩
     (Node.insert Node.empty [.stat [47], .par .dynC {name := [97], cons := [117, 56]}] iw) [47, 49] []) = true ∧
     isPanic (Node.searchC ⟨envT, fun _ => true⟩
     (Node.insert Node.empty [.stat [47], .par .dynC {name := [97], cons := [117, 56]}] iw) [47, 49] []) = false := by decide
+
+/-- `insert_static` / `find_static`: every `prefix[0]` and `child.state.prefix[0]` evaluated while inserting or looking up
+an expansion of a parsed template on a reachable router is in range -/
+theorem C07_insert_find_index_in_range (r : Router) (L : List LiveT) (h : Live r L) (t : Bytes) (ts : List (Bytes × List Part))
+    (hp : parseTemplates t = .ok ts) : ∀ e ∈ ts, Node.insertIdx r.root e.2 ∧ Node.findIdx r.root e.2 :=
+  live_insertIdx h t ts hp
+
+/-- `Display`: `count -= 1` never underflows, on any tree -/
+theorem C07_display_count_in_range (n : Node) : Node.linesIdx n := Node.linesIdx_all n
+
+/-- non-vacuity: the guard is a real condition — an empty label in the tree falsifies it -/
+example : ¬ Node.insertIdx (.mk none (.cons {pre := []} Node.empty .nil) .nil .nil .nil .nil .nil .nil false false false)
+    [.stat [47]] := by
+  simp [Node.insertIdx, Kids.insertStaticIdx]
